@@ -501,4 +501,77 @@ mod verif_c13 {
         assert!(u128::deserialize(k).unwrap() == want);
         kani::cover!(d[0] == b'9');
     }
+
+    // ---- more key views: optional keys, newtype keys, unit-variant (enum) keys ---------------------------------------------
+    #[kani::proof]
+    #[kani::stub(core::fmt::write, nofmt_write)]
+    #[kani::unwind(8)]
+    fn key_option_and_newtype_views() {
+        let v: i32 = kani::any();
+        // Some(key): the key deserializer is handed on, so the string form is still parsed
+        let got = Option::<i32>::deserialize(KeyDeserializer(Any(Inner::I32(v)))).unwrap();
+        assert!(got == Some(v));
+        let none = Option::<i32>::deserialize(KeyDeserializer(Any(Inner::Null))).unwrap();
+        assert!(none.is_none());
+        // a derive-shaped newtype key
+        let w = W::deserialize(KeyDeserializer(Any(Inner::I64(v as i64)))).unwrap();
+        assert!(w.0 == v as i64);
+        kani::cover!(true);
+    }
+
+    #[derive(PartialEq)]
+    pub enum Color {
+        Red,
+        Green,
+    }
+    impl<'de> Deserialize<'de> for Color {
+        fn deserialize<D: Deserializer<'de>>(d: D) -> Result<Color, D::Error> {
+            struct TagV;
+            impl<'de> Visitor<'de> for TagV {
+                type Value = bool;
+                fn expecting(&self, _: &mut fmt::Formatter<'_>) -> fmt::Result {
+                    Ok(())
+                }
+                fn visit_str<E: de::Error>(self, v: &str) -> Result<bool, E> {
+                    match v {
+                        "Red" => Ok(true),
+                        "Green" => Ok(false),
+                        _ => Err(E::custom("unknown variant")),
+                    }
+                }
+            }
+            struct Tag(bool);
+            impl<'de> Deserialize<'de> for Tag {
+                fn deserialize<D: Deserializer<'de>>(d: D) -> Result<Tag, D::Error> {
+                    d.deserialize_identifier(TagV).map(Tag)
+                }
+            }
+            struct CV;
+            impl<'de> Visitor<'de> for CV {
+                type Value = Color;
+                fn expecting(&self, _: &mut fmt::Formatter<'_>) -> fmt::Result {
+                    Ok(())
+                }
+                fn visit_enum<A: EnumAccess<'de>>(self, a: A) -> Result<Color, A::Error> {
+                    let (t, v): (Tag, A::Variant) = a.variant()?;
+                    v.unit_variant()?;
+                    Ok(if t.0 { Color::Red } else { Color::Green })
+                }
+            }
+            d.deserialize_enum("Color", &["Red", "Green"], CV)
+        }
+    }
+
+    #[kani::proof]
+    #[kani::stub(core::fmt::write, nofmt_write)]
+    #[kani::unwind(8)]
+    fn key_unit_variant_enum_view() {
+        // enum map keys are unit variants spelled as strings
+        let red: bool = kani::any();
+        let k = KeyDeserializer(Any(Inner::String(if red { "Red".to_string() } else { "Green".to_string() })));
+        let c = Color::deserialize(k).unwrap();
+        assert!((c == Color::Red) == red);
+        kani::cover!(red);
+        kani::cover!(!red);
+    }
 }
